@@ -146,3 +146,23 @@ def demux_locks_job(ctx):
             "the sync point's probe uses RwLock::try_read to see a queued or active writer (std's futex RwLock refuses readers while a writer waits)",
         ],
     }
+
+
+
+def response_head_under_contention_job(ctx):
+    """C10 over HTTP/3 with a second tunnel of the session using up the connection's send capacity: the CONNECT whose destination was
+    reached must be answered 200 (StreamWake.gen2 / gen2c layouts, the destinations speak at once). The known defect
+    (QuicSocket::send_response treats quiche's StreamBlocked as fatal) is reported under its own signature."""
+    ctx.build("c02h3c")
+    args = []
+    for cfg in ("gen2", "gen2c"):
+        g = ctx.tlc("MCStreamWake", "StreamWake.%s.cfg" % cfg, workers=2, timeout=300, coverage=False, name="StreamWake.%s.c10" % cfg)
+        ctx.spec_must_hold(g)
+        args += ["--vectors", g["out"]]
+    n0 = len(ctx.violations)
+    r = ctx.harness("c02h3c", args + ["--eager"], name="c02h3c.eager", env={"VERIF_ROOT": ROOT}, timeout=600)
+    for v in ctx.violations[n0:]:
+        w = v.get("what", "")
+        if v.get("sig", "").endswith(":setup") and "not answered 200 (head None" in w and "reset=Some(271)" in w:
+            v["sig"] = "h3:response-head:stream-blocked"
+    return {"eager_scenarios": r["evaluations"]}
